@@ -183,8 +183,11 @@ func (h *tracerHandler) Handle(ctx *ptracer.Context) ptracer.TraceAction {
 	case "unlinkat":
 		action = h.checkWriteAt(ctx, dirfdArg(ctx.Arg0()), ctx.Arg1())
 
-	case "mkdirat", "mknodat", "symlinkat", "fchmodat", "fchmodat2":
+	case "mkdirat", "mknodat", "fchmodat", "fchmodat2":
 		action = h.checkWriteAt(ctx, dirfdArg(ctx.Arg0()), ctx.Arg1())
+	case "symlinkat":
+		// symlinkat(target, newdirfd, linkpath): the created name is (arg1, arg2)
+		action = h.checkWriteAt(ctx, dirfdArg(ctx.Arg1()), ctx.Arg2())
 	case "linkat":
 		action = combineTraceActions(
 			h.checkWriteAt(ctx, dirfdArg(ctx.Arg0()), ctx.Arg1()),
